@@ -409,3 +409,107 @@ func TestC07Faults(t *testing.T) {
 		})
 	})
 }
+
+// ---- object conversion faults between runs ----
+
+// ReflectCase: runs on objects whose nested maps fail to convert at some
+// depth, then a run on a deeply nested good object.
+type ReflectCase struct {
+	Prop     string `json:"prop"`
+	Kind     string `json:"kind"`
+	Script   string `json:"script"`
+	BadRuns  int    `json:"bad_runs"`
+	BadDepth int    `json:"bad_depth"`
+	BadLeaf  string `json:"bad_leaf"`
+	Good     int    `json:"good_depth"`
+	Msg      string `json:"message,omitempty"`
+}
+
+const reflectScript = `x = Deep; n = 0; while ( type(x) == "hash" ) { x = x["next"]; n = n + 1; } return [n, Name, type(x)];`
+
+func nestedMap(depth int, leaf interface{}) interface{} {
+	var cur interface{} = leaf
+	for i := 0; i < depth; i++ {
+		cur = map[string]interface{}{"next": cur, "level": i}
+	}
+	return cur
+}
+
+func badLeaf(kind string) interface{} {
+	switch kind {
+	case "map[string]int":
+		return map[string]interface{}{"next": map[string]int{"x": 1}}
+	case "map[bool]any":
+		return map[string]interface{}{"next": map[bool]interface{}{true: 1}}
+	case "map[int]any":
+		return map[string]interface{}{"next": map[int]interface{}{1: 1}}
+	case "chan":
+		return map[string]interface{}{"next": make(chan int)}
+	}
+	return map[string]interface{}{"next": struct{ X int }{1}}
+}
+
+func runReflect(c *ReflectCase) error {
+	used, err := prepared(c.Script, nil, false)
+	if err != nil {
+		return fmt.Errorf("Prepare rejected a valid script: %v", err)
+	}
+	observe := func(r *eng.Runner, obj interface{}) string {
+		res := r.Execute(obj)
+		if res.Panic != nil {
+			return fmt.Sprintf("panic:%v", res.Panic)
+		}
+		if res.Err != nil {
+			return "error"
+		}
+		return res.Val.Describe()
+	}
+	bad := func() interface{} {
+		return map[string]interface{}{"Name": "bad", "Deep": nestedMap(c.BadDepth, badLeaf(c.BadLeaf))}
+	}
+	good := func() interface{} {
+		return map[string]interface{}{"Name": "good", "Deep": nestedMap(c.Good, 1)}
+	}
+	for i := 0; i < c.BadRuns; i++ {
+		got := observe(used, bad())
+		fresh, _ := prepared(c.Script, nil, false)
+		if want := observe(fresh, bad()); got != want {
+			return fmt.Errorf("run %d on the object that fails %d maps deep: used evaluator %s, fresh evaluator %s", i, c.BadDepth, clip(got, 300), clip(want, 300))
+		}
+	}
+	got := observe(used, good())
+	fresh, _ := prepared(c.Script, nil, false)
+	if want := observe(fresh, good()); got != want {
+		return fmt.Errorf("after %d runs on an object that fails %d maps deep, a good object nested %d deep gives %s; a fresh evaluator gives %s", c.BadRuns, c.BadDepth, c.Good, clip(got, 300), clip(want, 300))
+	}
+	return nil
+}
+
+func init() {
+	replayers["C07/reflect"] = func(raw []byte) error {
+		var c ReflectCase
+		if err := json.Unmarshal(raw, &c); err != nil {
+			return err
+		}
+		return runReflect(&c)
+	}
+}
+
+func TestC07Reflect(t *testing.T) {
+	defer silenceAs("reflect")()
+	col := evid.New("C07", "reflect", "")
+	rapidCheck(t, col, func(rt *rapid.T) {
+		c := &ReflectCase{Prop: "C07", Kind: "reflect", Script: reflectScript,
+			BadRuns:  rapid.SampledFrom([]int{1, 2, 5, 20}).Draw(rt, "badruns"),
+			BadDepth: rapid.SampledFrom([]int{0, 1, 10, 100, 400, 900}).Draw(rt, "baddepth"),
+			BadLeaf:  rapid.SampledFrom([]string{"map[string]int", "map[bool]any", "map[int]any", "chan", "struct"}).Draw(rt, "badleaf"),
+			Good:     rapid.SampledFrom([]int{0, 3, 50, 600, 950, 990}).Draw(rt, "good")}
+		if err := runReflect(c); err != nil {
+			c.Msg = err.Error()
+			violation(rt, "C07", c, "%v", err)
+		}
+		col.Class("bad-leaf:" + c.BadLeaf)
+		cc := c
+		col.Case(fmt.Sprint(*c), c.BadRuns*c.BadDepth > 0, func() interface{} { return cc })
+	})
+}
